@@ -6,13 +6,25 @@ the tokens produced by the model of `Tokenize` carry offsets that reproduce
 their text from the input, are non-empty, lie inside the input, and come in
 increasing non-overlapping order; every byte outside all tokens belongs to a
 rune classified as space; and a token range inside the token bounds converts
-to a byte range start ≤ end inside the string.  The stage bounds of
-FindPotentialMatches (untangle / split / merge / coalesce) are established on
-the implementation by the C17 oracle, not by a theorem (see DESIGN §6 C17).
-Property theorems only; helper lemmas live in LC/Proofs/V1Tok.lean.
+to a byte range start ≤ end inside the string.
+
+Second part (`LC.V1Search`): the stages FindPotentialMatches runs after
+`targetMatchedRanges` and `sort.Sort` — untangle / split / mergeConsecutive /
+coalesce, modelled in LC/Model/V1Search.lean and compared with the real functions
+on every run (stage `v1post`) — keep, for EVERY list that is ordered by
+TargetStart and whose ranges are non-empty and inside the target's token
+bounds, every candidate non-empty, ordered by target position and inside the
+token bounds (`post_inv`); hence every candidate converts to a byte range
+start ≤ end inside the target string (`candidate_byte_range`).  That the list
+`targetMatchedRanges` + `sort.Sort` hand over satisfies the two hypotheses is
+monitored by the harness on every recorded list, not proved
+(`targetMatchedRanges` is not modelled).
+Property theorems only; helper lemmas live in LC/Proofs/V1Tok.lean, LC/Proofs/V1Search.lean.
 -/
 import LC.Model.V1Tok
+import LC.Model.V1Search
 import LC.Proofs.V1Tok
+import LC.Proofs.V1Search
 
 namespace LC.V1Tok
 open LC.Utf8
@@ -48,3 +60,38 @@ example : tokenize { isSpace := fun r => r = 32, isPunct := fun r => r = 46 } [9
     [⟨[97, 0xFF, 98], 0⟩, ⟨[99], 4⟩, ⟨[46], 5⟩] := by decide
 
 end LC.V1Tok
+
+namespace LC.V1Search
+
+/-- the fuel of `untangleGo` (the loop index of `untangleSourceRanges`) suffices: any larger
+fuel gives the same result -/
+theorem untangle_fuel (fuel : Nat) (last : MR) (l : List MR) (h : l.length ≤ fuel) :
+    untangleGo fuel last l = untangleGo l.length last l :=
+  untangle_fuel' fuel last l h
+
+/-- Every candidate FindPotentialMatches builds from a list ordered by TargetStart whose ranges
+are non-empty and within the token bounds is non-empty, ordered by target position and within
+the token bounds. -/
+theorem post_inv (n : Int) (l : List MR) (hs : SortedTS l) (hb : ∀ r ∈ l, InBounds n r) :
+    ∀ g ∈ post l, g ≠ [] ∧ SortedTS g ∧ ∀ r ∈ g, InBounds n r :=
+  post_inv' n l hs hb
+
+/-- a non-empty list yields at least one candidate -/
+theorem post_ne (l : List MR) (h : l ≠ []) : post l ≠ [] :=
+  post_ne' l h
+
+/-- Every candidate converts to a byte range start ≤ end inside the target string
+(`MatchRanges.TargetRange`: offset of the first range's first token to the end of the last
+range's last token). -/
+theorem candidate_byte_range (C : LC.V1Tok.Classes) (hv : LC.V1Tok.ValidPunct C) (s : List UInt8)
+    (l : List MR) (hs : SortedTS l) (hb : ∀ r ∈ l, InBounds (LC.V1Tok.tokenize C s).length r)
+    (g : List MR) (hg : g ∈ post l) :
+    ∃ f z a b, g.head? = some f ∧ g.getLast? = some z ∧
+      LC.V1Tok.targetRange (LC.V1Tok.tokenize C s) f.ts.toNat z.te.toNat = some (a, b) ∧
+      a ≤ b ∧ b ≤ s.length :=
+  candidate_byte_range' C hv s l hs hb g hg
+
+example : post [⟨0, 3, 0, 3⟩, ⟨1, 4, 1, 4⟩, ⟨2, 5, 2, 5⟩, ⟨0, 3, 10, 13⟩] =
+    [[⟨0, 5, 0, 5⟩], [⟨0, 3, 10, 13⟩]] := by decide
+
+end LC.V1Search
